@@ -247,6 +247,11 @@ fn class_sweep(env: &Env) -> Report {
         for p in &chunks[ci] {
             for v in &vals {
                 let (pc, pm) = key_of(p); let (vc, vm) = key_of(v);
+                // a previous character that is itself a vowel sign is typed behind a consonant (at the very start it would be turned into
+                // its vowel, or dropped): the case "the text ends in the SIGN" is reached this way
+                let p_is_sign = p.chars().count() == 1 && KAR.contains(p.chars().next().unwrap());
+                let mut lead = String::new();
+                if p_is_sign { let (kc, km) = key_of(&"\u{0995}".to_string()); lead = pre_text(&s.key(&mut t, kc, km, 0)); }
                 let ob = s.key(&mut t, pc, pm, 0);
                 if ob == Obs::Panic { rep.violation("C01", "panic", format!("key value {:?} on an empty composition panicked", p), json!({"stream": "c12", "layout": lp, "opts": o.bits_str(), "events": s.events})); s.clear_events(); continue; }
                 let before = pre_text(&ob);
@@ -255,7 +260,7 @@ fn class_sweep(env: &Env) -> Report {
                 let after = pre_text(&ob);
                 let evs = s.events.clone(); let ob2 = o.bits_str(); let lp2 = lp.clone();
                 // the first key is held to the rules too (empty text before it)
-                check_key(&mut rep, &o, "", p, &before, &{ let (e, b, l) = (evs.clone(), ob2.clone(), lp2.clone()); move || json!({"stream": "c12", "layout": l, "opts": b, "events": e[..1].to_vec()}) });
+                check_key(&mut rep, &o, &lead, p, &before, &{ let (e, b, l) = (evs.clone(), ob2.clone(), lp2.clone()); move || json!({"stream": "c12", "layout": l, "opts": b, "events": e[..e.len() - 1].to_vec()}) });
                 check_key(&mut rep, &o, &before, v, &after, &move || json!({"stream": "c12", "layout": lp2, "opts": ob2, "events": evs}));
                 rep.eval(Some(&format!("sweep|{}|{}|{}", o.bits_str(), p, v)));
                 rep.count("class-sweep-pair");
@@ -331,6 +336,8 @@ pub fn run_c14(env: &Env) -> Report {
     let kars = [None, Some('a'), Some('i'), Some('I'), Some('u'), Some('U'), Some('R'), Some('E'), Some('O'), Some('w'), Some('W')];
     let joinsets: Vec<Vec<u8>> = { let mut v = vec![vec![]]; for a in 0..5u8 { v.push(vec![a]); for b in 0..5u8 { v.push(vec![a, b]); } } v };
     for c0 in ['k', 'r', 't'] { for j in &joinsets { for k in kars { for ch in [false, true] { syls.push(Syl::Cons { c0, joins: j.clone(), kar: k, chandra: ch, tail: None }); } } } }
+    // a key whose VALUE is a whole conjunct (K = ক্ষ: the hasanta sits inside the value) as the consonant of the syllable
+    for k in kars { for j in [vec![], vec![0u8], vec![3u8]] { syls.push(Syl::Cons { c0: 'K', joins: j, kar: k, chandra: false, tail: None }); } }
     // vowel via hasanta + sign after a syllable carrying a sign (no chandrabindu in between)
     for c0 in ['k', 't'] { for k in [Some('i'), Some('E'), Some('O'), Some('a'), Some('w')] { for tl in ['u', 'a', 'i', 'E'] { syls.push(Syl::Cons { c0, joins: vec![], kar: k, chandra: false, tail: Some(tl) }); syls.push(Syl::Cons { c0, joins: vec![0], kar: k, chandra: false, tail: Some(tl) }); } } }
     for v in ['o', 'e'] { syls.push(Syl::Indep(v)); }
@@ -469,7 +476,7 @@ pub fn run_c14(env: &Env) -> Report {
 
 pub fn run_c13(env: &Env) -> Report {
     let lp = write_s2(&env.a.out).to_str().unwrap().to_string();
-    let keep = "krtoeaiuhcmxyJn1";
+    let keep = "krtToeaiuhcmxyJn1";      // T = khanda ta: a consonant like the others for the reph
     let keys: Vec<(char, &'static str)> = s2_bindings().into_iter().filter(|(c, _)| keep.contains(*c)).collect();
     let sets = settings(Some(true));
     let seed = env.a.seed;
